@@ -248,8 +248,8 @@ def strat_track(draw):
     dts = [pool[j] for j in draw(st.lists(st.integers(0, len(pool) - 1), min_size=n - 1, max_size=n - 1))]
     t0 = draw(gen.ts_ms(whole_seconds=exact, lo_ms=0, hi_ms=gen.MAX_MS - MAX_SPAN))
     inherit = None
-    if draw(st.sampled_from([False, False, True])):
-        q = raw[n - 1]
+    q = raw[n - 1]
+    if (q // 54) % 3 == 0:
         off = [(0, 0), (5, 0), (0, -0.25), (300, 400), (1e-3, 0), (-7, 7)][q % 6]
         inherit = {"pt": [pts[0][0] + off[0], pts[0][1] + off[1], pts[0][2] + (q // 6) % 3], "dt": [0, 1000, 125][(q // 18) % 3]}
     return {"pts": pts, "t0": t0, "dts": dts, "ops": draw(st.sampled_from(_OPS)), "inherit": inherit,
@@ -268,5 +268,5 @@ RULE = ("small: every track of 2..4 fixes on the corners of a 3x4 rectangle (int
 
 SUBCHECKS = [
     SubCheck("small", _run, enum=enum_small, rule="complete small scope on a 3-4-5 rectangle", qshards=4),
-    SubCheck("tracks", _run, strategy=strat_track, quick=8000, thorough=250000, qshards=8),
+    SubCheck("tracks", _run, strategy=strat_track, quick=8000, thorough=160000, qshards=8),
 ]
